@@ -6,5 +6,6 @@ CONSTANTS
   Vias <- ViasGenPair
   MaxInject = 1
   Spoof = TRUE
-CONSTRAINTS GenPairDeep GenStop
+  RestoreAtTop = TRUE
+CONSTRAINTS GenStop
 INVARIANTS EmitPair
